@@ -324,6 +324,40 @@ func runC07(env *lib.Env, rep *lib.Report) {
 			}
 		})
 	}
+	// AVG over BIGINT values near the top of the range in which float64 still holds every integer (2^53):
+	// one- and two-row groups, so that the known finding about re-rounding (three or more rows) stays out
+	if env.Shard == 0 {
+		const p52 = int64(1) << 52
+		bigVals := []int64{p52 + 1, p52 + 3, 2*p52 - 1, 2*p52 - 3, p52, 7, -(p52 + 1), -(2*p52 - 1)}
+		var sets [][][]any
+		for i, a := range bigVals {
+			sets = append(sets, [][]any{{int64(1), a}})
+			for _, b := range bigVals[i:] {
+				if (a < 0) == (b < 0) && (a%2 == b%2) { // same sign and parity: the sum stays below 2^54 and even, the average is an integer
+					sets = append(sets, [][]any{{int64(1), a}, {int64(1), b}}, [][]any{{int64(1), a}, {int64(2), b}})
+				}
+			}
+		}
+		bq := []*qQuery{
+			{items: []qItem{{kind: "avg", col: qRef{"", "w"}}}, from: []qJoin{{table: "tb"}}, limit: -1, offset: -1},
+			{items: []qItem{{kind: "col", col: qRef{"", "g"}}, {kind: "avg", col: qRef{"", "w"}}, {kind: "count*"}}, from: []qJoin{{table: "tb"}}, groupBy: []qRef{{"", "g"}}, limit: -1, offset: -1},
+		}
+		for _, rows := range sets {
+			rows := rows
+			worlds++
+			x := lib.RunOnce(func(c *lib.Ctx) {
+				qw := newQWorld(c, []*qTable{{name: "tb", cols: []mCol{{"g", "int"}, {"w", "bigint"}}, rows: rows}})
+				defer qw.w.destroy()
+				for _, q := range bq {
+					r.check(qw, q, "avg/large-bigint", "")
+				}
+			}, nil)
+			if x.Fail != nil {
+				rep.AddFailure(x.Fail)
+			}
+		}
+		rep.Bounds["large BIGINT family"] = fmt.Sprintf("%d one- and two-row tables over values around 2^52..2^53 (both signs), AVG with and without GROUP BY", len(sets))
+	}
 	rep.Bounds["varchar grouping family"] = "every multiset of <= 3 rows over s in {NULL, '', 'a', '<nil>', '0:|'} in every row order, 4 GROUP BY queries"
 	rep.Bounds["databases built (this shard)"] = worlds
 	rep.Bounds["queries executed (this shard)"] = r.nQuery
